@@ -411,3 +411,18 @@ def hook_counters(binname, lines, profile="release"):
         return {}
     vals = [int(x, 16) for x in out[-1][2:].split(",") if x]
     return {n: vals[i] for i, n in enumerate(HOOK_NAMES) if i < len(vals)}
+
+
+def coqchk(pid, timeout=3600):
+    """Independent re-check of Properties/<pid>.vo and everything it depends on (coqchk -o).
+    Returns (ok, axioms list, summary text)."""
+    rc, out = sh(["coqchk", "-silent", "-o", "-R", ".", "RV", "RV.Properties." + pid], cwd=COQ, timeout=timeout)
+    m = re.search(r"\* Axioms:(.*?)\n\s*\n\* Constants/Inductives relying on type-in-type:(.*?)\n\s*\n"
+                  r"\* Constants/Inductives relying on unsafe \(co\)fixpoints:(.*?)\n\s*\n"
+                  r"\* Inductives whose positivity is assumed:(.*?)\n", out, flags=re.S)
+    if rc != 0 or not m:
+        return False, ["<coqchk failed>"], out[-1500:]
+    secs = [x.strip() for x in m.groups()]
+    axioms = [] if secs[0] == "<none>" else [l.strip() for l in secs[0].splitlines() if l.strip()]
+    ok = all(x == "<none>" for x in secs[1:]) and all(a in ALLOWED_AXIOMS for a in axioms)
+    return ok, axioms, "; ".join(secs)
